@@ -2,7 +2,7 @@
 # usage: seedrun.sh <ID> <seed-dir> [tier] — confirm a seeded change in a scratch worktree, store it
 # under /verif/seeded/<name>/, run the property's check against it (applied to /repo, undone afterwards).
 set -u
-ID=$1; SD=$2; TIER=${3:-quick}; NAME=$(basename $SD | sed "s/^seed2-\(.*\)/\1-r2/; s/^seed3-\(.*\)/\1-r3/; s/^seed-//")
+ID=$1; SD=$2; TIER=${3:-quick}; NAME=$(basename $SD | sed "s/^seed2-\(.*\)/\1-r2/; s/^seed3-\(.*\)/\1-r3/; s/^seed4-\(.*\)/\1-r4/; s/^seed-//")
 export GOFLAGS=-mod=mod GOPROXY=off GOSUMDB=off GOTOOLCHAIN=local
 WT=/tmp/confirm-$NAME
 git -C /repo worktree remove --force $WT >/dev/null 2>&1
@@ -37,13 +37,12 @@ cp $SD/demo_test.go $WT/$DIR/zz_seed_demo_test.go
 (cd $WT && go test -vet=off -count=1 -run "^$TEST\$" ./$DIR >/tmp/confirm-$NAME.patched 2>&1); R1=$?
 rm $WT/$DIR/zz_seed_demo_test.go
 (cd $WT && go build ./... && go test -vet=off -count=1 ./... >/tmp/confirm-$NAME.suite 2>&1); R2=$?
-git -C /repo worktree remove --force $WT
 echo "demo unpatched rc=$R0 (want 0)  demo patched rc=$R1 (want !=0)  suite with patch rc=$R2 (want 0)"
-if [ $R0 -ne 0 ] || [ $R1 -eq 0 ] || [ $R2 -ne 0 ]; then echo "SEED NOT CONFIRMED"; exit 4; fi
+if [ $R0 -ne 0 ] || [ $R1 -eq 0 ] || [ $R2 -ne 0 ]; then echo "SEED NOT CONFIRMED"; git -C /repo worktree remove --force $WT; exit 4; fi
 mkdir -p /verif/seeded/$NAME && cp $SD/patch.diff $SD/demo_test.go $SD/meta.json /verif/seeded/$NAME/
-# run the check against the seeded tree
-git -C /repo apply $SD/patch.diff || exit 5
-(cd /verif && timeout 3000 python3 vcheck.py $ID $TIER > /tmp/seedcheck-$NAME.log 2>&1); RC=$?
-git -C /repo checkout -- . ; git -C /repo status --short | head -3
+# run the check against the seeded tree: the scratch worktree (patch applied) stands in for /repo
+# through VERIF_REPO, so /repo itself is never touched and several seeds can be checked at once
+(cd /verif && VERIF_REPO=$WT timeout 3000 python3 vcheck.py $ID $TIER > /tmp/seedcheck-$NAME.log 2>&1); RC=$?
+git -C /repo worktree remove --force $WT
 echo "check $ID $TIER on seeded tree: rc=$RC"; grep -m3 "VIOLATION\|UNDECIDED" /tmp/seedcheck-$NAME.log | cut -c1-220; tail -1 /tmp/seedcheck-$NAME.log | cut -c1-200
 exit 0
